@@ -3,7 +3,8 @@
 correspondence (unit layer): all_features / features_of_type / count_features_of_type / featuretypes / seqids
 vs Interface.runQuery / countFeatures / featuretypes / seqids.
 oracle (real code only): brute-force filter; sortedness under sqlite's ordering (NULL < INTEGER < TEXT, text by
-code point); counts; distinct lists.
+code point); counts; distinct lists - also when featuretypes()/seqids() are consumed lazily and other listing / count
+queries run inside the loop or side by side.
 """
 import os
 
@@ -126,6 +127,87 @@ def check_distinct(case, db, feats, res):
     return fts, sq
 
 
+LAZY_PATTERNS = ["count_per_featuretype", "count_per_seqid_total", "seqids_inside_featuretypes", "featuretypes_inside_seqids",
+                 "zip_featuretypes_featuretypes", "zip_seqids_seqids", "zip_featuretypes_seqids", "alternate_next"]
+
+
+def check_lazy_lists(case, db, feats, res):
+    """featuretypes() / seqids() consumed LAZILY while other listing / counting queries run on the same FeatureDB (the
+    table-of-counts loop, two listings side by side): the values yielded are still exactly the distinct values present,
+    each once, and every count is the number of features of that type"""
+    pat = case["pattern"]
+    wf = sorted(set(f["ftype"] for f in feats)); ws = sorted(set(f["seqid"] for f in feats))
+    nof = lambda t: sum(1 for f in feats if f["ftype"] == t)
+    seen = {}            # listing -> values yielded, in order
+    counts = {}
+    try:
+        if pat == "count_per_featuretype":
+            seen["featuretypes"] = []
+            for t in db.featuretypes():
+                seen["featuretypes"].append(t)
+                counts[t] = db.count_features_of_type(t)
+        elif pat == "count_per_seqid_total":
+            seen["seqids"] = []
+            for sq in db.seqids():
+                seen["seqids"].append(sq)
+                counts[None] = db.count_features_of_type()
+        elif pat == "seqids_inside_featuretypes":
+            seen["featuretypes"] = []
+            for i, t in enumerate(db.featuretypes()):
+                seen["featuretypes"].append(t)
+                seen["seqids (inner, pass %d)" % i] = list(db.seqids())
+        elif pat == "featuretypes_inside_seqids":
+            seen["seqids"] = []
+            for i, sq in enumerate(db.seqids()):
+                seen["seqids"].append(sq)
+                seen["featuretypes (inner, pass %d)" % i] = list(db.featuretypes())
+        elif pat.startswith("zip_"):
+            _, na, nb = pat.split("_")
+            a, b = iter(getattr(db, na)()), iter(getattr(db, nb)())
+            la, lb = [], []
+            while True:                     # what zip(a, b) does, without dropping the value taken last from `a`
+                try:
+                    la.append(next(a))
+                    lb.append(next(b))
+                except StopIteration:
+                    break
+            la.extend(a); lb.extend(b)
+            seen[na + " (first of the pair)"] = la
+            seen[nb + " (second of the pair)"] = lb
+        else:
+            a, b = iter(db.featuretypes()), iter(db.seqids())
+            la, lb = [], []
+            for pick in case["schedule"]:
+                it, acc = (a, la) if pick == 0 else (b, lb)
+                try:
+                    acc.append(next(it))
+                except StopIteration:
+                    pass
+                if pick == 2:
+                    counts[None] = db.count_features_of_type()
+            la.extend(a); lb.extend(b)
+            seen["featuretypes"] = la
+            seen["seqids"] = lb
+    except Exception as ex:
+        common.fail(res, case, "query_raised", "lazy listing raised %r" % ex, error=dbside.err_name(ex), observed=repr(ex))
+        return None
+    res.evaluations += 1
+    bad = {}
+    for name, vals in seen.items():
+        want = wf if name.startswith("featuretypes") else ws
+        if sorted(vals) != want:
+            bad[name] = {"yielded": vals, "expected": want}
+    badc = {str(t): {"count": n, "expected": (len(feats) if t is None else nof(t))} for t, n in counts.items()
+            if n != (len(feats) if t is None else nof(t))}
+    if pat == "count_per_featuretype" and sorted(counts) != wf and "featuretypes" not in bad:
+        badc["<keys>"] = {"counted": sorted(counts), "expected": wf}
+    if bad or badc:
+        common.fail(res, case, "lazy_lists_wrong",
+                    "featuretypes()/seqids() consumed lazily while other listing/count queries run on the same FeatureDB (%s) "
+                    "are not exactly the distinct values present, or a count is wrong" % pat, listings=bad, counts=badc)
+    return seen, counts
+
+
 def check_query(case, db, feats, rows, res):
     """all_features / features_of_type with featuretype, strand, order_by, reverse against the brute-force filter and
     sqlite's ordering.  returns (ids | None, featuretype list | None)"""
@@ -206,6 +288,8 @@ def judge(ctx, case):
         check_count(case, db, feats, res)
     elif sc == "distinct_lists":
         check_distinct(case, db, feats, res)
+    elif sc == "lazy_lists":
+        check_lazy_lists(case, db, feats, res)
     elif sc == "query":
         check_query(case, db, feats, {x["id"]: x for x in dbside.rows_of(db)}, res)
     elif sc == "history":
@@ -227,7 +311,9 @@ def run(ctx):
     r = ctx.rng("c11")
     res.rule = ("feature sets of 3-30 features with mixed-case / non-ASCII seqids, numeric-looking text columns, ties and "
                 "'.' coordinates; featuretype as string / list / tuple / absent; strand; order_by every valid column as a "
-                "string, a 1-tuple and in pairs; reverse on/off. non-trivial = distinct (set, query) with >= 2 results")
+                "string, a 1-tuple and in pairs; reverse on/off; featuretypes()/seqids() also consumed lazily with counts / "
+                "other listings asked for inside the loop or side by side (zip). non-trivial = distinct (set, query) with "
+                ">= 2 results, or a lazy-listing pattern on a set with >= 2 featuretypes and >= 2 seqids")
     cmds, exp, tags = [], [], []
     nsets = 20 if not ctx.thorough else 250
     for si in range(nsets):
@@ -252,6 +338,14 @@ def run(ctx):
         fts, sq = check_distinct(mk_case("distinct_lists", lines, feats), db, feats, res)
         cmds.append("ftypes"); exp.append("SET " + enc_list(fts)); tags.append(("featuretypes", repr(lines)))
         cmds.append("seqids"); exp.append("SET " + enc_list(sq)); tags.append(("seqids", repr(lines)))
+        # the listings consumed lazily, with other listing / count queries in between (oracle only: the model's listings
+        # are values, there is nothing to interleave)
+        for pat in LAZY_PATTERNS:
+            sched = [r.choice([0, 0, 1, 1, 2]) for _ in range(r.randrange(2, 14))] if pat == "alternate_next" else None
+            check_lazy_lists(mk_case("lazy_lists", lines, feats, pattern=pat, schedule=sched), db, feats, res)
+            res.count("lazy_" + pat)
+            if len(set(f["ftype"] for f in feats)) >= 2 and len(set(f["seqid"] for f in feats)) >= 2:
+                res.nontriv((si, "lazy", pat))
         # queries
         nq = 40 if not ctx.thorough else 80
         for qi in range(nq):
